@@ -887,7 +887,8 @@ class PythonPrimitiveToStoneDecoder:
             else:
                 try:
                     ret = base64.b64decode(val)
-                except (TypeError, binascii.Error):
+                except (TypeError, binascii.Error, ValueError):
+                    # non-ASCII text raises a plain ValueError
                     raise bv.ValidationError('invalid base64-encoded bytes')
         elif isinstance(data_type, bv.Void):
             if self.strict and val is not None:
